@@ -54,12 +54,14 @@ def main():
             t0 = time.time()
             only_c = only
             if '=' in c: c, only_c = c.split('=', 1)
-            cmd = [os.path.join(VERIF, 'check'), c, '--tier', 'quick'] + (['--only', only_c] if only_c else [])
+            tier = 'quick'
+            if '@' in c: c, tier = c.split('@', 1)
+            cmd = [os.path.join(VERIF, 'check'), c, '--tier', tier] + (['--only', only_c] if only_c else [])
             rc, o = sh(cmd, cwd=VERIF, timeout=10800, env=env)
             viol = [l for l in o.splitlines() if l.startswith('VIOLATION')]
             inc = [l for l in o.splitlines() if l.startswith('INCONCLUSIVE')]
             desc = [l.strip() for l in o.splitlines() if l.startswith('   query')]
-            meta['checks'][c + ('' if not only_c else ' --only ' + only_c)] = {'cmd': ' '.join(cmd[1:]), 'exit': rc, 'violation_lines': len(viol), 'inconclusive': len(inc), 'first_violations': desc[:3], 'seconds': round(time.time() - t0)}
+            meta['checks'][c + ('' if tier == 'quick' else ' --tier ' + tier) + ('' if not only_c else ' --only ' + only_c)] = {'cmd': ' '.join(cmd[1:]), 'exit': rc, 'violation_lines': len(viol), 'inconclusive': len(inc), 'first_violations': desc[:3], 'seconds': round(time.time() - t0)}
             print('check %s: exit %d, %d VIOLATION, %d INCONCLUSIVE (%ds)' % (c, rc, len(viol), len(inc), time.time() - t0))
             for d in desc[:2]: print('    ' + d[:200])
             if rc == 2:
